@@ -9,6 +9,10 @@ ids = [json.loads(l)['id'] for l in (V / 'properties.jsonl').read_text().splitli
 TECH = 'contract-based deductive verification: own VC generator (pyvc) over the real .py/.pyx source, sidecar contracts, z3/cvc5'
 
 CLAIMED = {
+	'C18': dict(
+		text='Session clauses verified on the real code over an assumed SQLAlchemy model with ghost flags for "a real flush / commit happened": ReadOnlySession.flush is a no-op that never reaches Session.flush, ReadOnlySession.commit raises TypeError on every call; file_sessionmaker builds a maker whose session class and SQLite URL are decided by the arguments of THAT call alone (ReadOnlySession for the defaults, for every path string); load_genomeset and CLIContext._init_genomes (fresh and already-initialised context; the getter re-entrance is unfolded) hand out read-only sessions on the located genome file; load_signatures_hdf5 with no caller-supplied h5py arguments opens nothing in a mode that could create, truncate or modify a file (open(path, "rb"), h5py.File(path) = mode "r"). The history clause (no byte of either file changes under any sequence of read-side commands and calls) is covered by a BOUNDED stand-in: generated histories of real CLI commands (incl. failing ones) and library calls on a private copy of the bundled database, sha256 + size of both files and the directory listing after every step, session probes after every default open.',
+		note='Trusted: SQLAlchemy model (Session.flush/commit are the only write paths of the ORM; SELECTs do not modify an SQLite file), h5py default mode. Bounded only: byte identity of the files over command histories.',
+		design='3/C18'),
 	'C06': dict(
 		text='Lemmas over the C01 contract of calc_signature (result = strictly increasing array of exactly the x with sig(kmerspec, contig, x) for SOME contig; re-verified here for the default accumulator): reverse-complementing a contig leaves sig unchanged (forward matches become the mirrored reverse matches with the same k-mer index: inductive lemma encrc(RC(s)) = enc(s), complement is an involution), letter case leaves it unchanged (sig depends on the bytes through up() only), the union is invariant under any rearrangement of signature-equivalent contigs, and two strictly increasing arrays with the same members are the same array - so the signature array is identical; the union clause / no k-mer across contigs IS the postcondition. File glue verified over an assumed stream model: guess_compression decides by the first two CONTENT bytes for every path string, _open_auto / open_compressed (24 mode x compression instances incl. the ValueError cases) / SequenceFile.open / SequenceFile.parse build text>gzip>file exactly when the content starts with 1f 8b and hand the parser the stream over the file\'s own path and format; calc_file_signature = calc_signature over the sequences of ALL records in file order (sig opaque at this level). Line width, CRLF, final newline, gzip decoding are decided inside Bio.SeqIO / gzip / TextIOWrapper (external): BOUNDED stand-in only (real calc_file_signature on generated files under all rewrites).',
 		note='Trusted: C01 base, induction as a proof rule (base/step obligations), stream model. Bounded only: everything the FASTA parser / gzip / text decoding decide.',
